@@ -650,11 +650,20 @@ def gen_desc(rng):
         extra.append(("dangling.c", "does/not/exist.c"))
     if rng.random() < 0.2 and "notes.txt" in [os.path.basename(t) for t in desc["texts"]]:
         extra.append(("fake.c", next(t for t in desc["texts"] if os.path.basename(t) == "notes.txt")))
+    if rng.random() < 0.35:
+        # a link inside the tree to a source file kept outside it: the target is not in the code base, so the link is not a
+        # member and no report counts it
+        desc["outside"] = {"ext.c": ["int outside_a;", "int outside_b;", "#ifdef A", "int outside_c;", "#endif"]}
+        extra.append((rng.choice(["ext_link.c", "src/ext_link.c", "links/ext_link.c"]), "../outside/ext.c"))
     desc["links"] = desc["links"] + extra
     return desc
 
 
 def materialise(root, desc):
+    for name, body in (desc.get("outside") or {}).items():
+        os.makedirs(os.path.join(os.path.dirname(root), "outside"), exist_ok=True)
+        with open(os.path.join(os.path.dirname(root), "outside", name), "w") as f:
+            f.write("\n".join(body) + "\n")
     G.write_codebase(root, desc)
     if not desc["platforms"]:
         with open(os.path.join(root, "analysis.toml"), "w") as f:
@@ -692,7 +701,8 @@ def gen_steps(ctx, drv, desc, origin, pool=None, replaying=False):
     """generator: runs the in-process part (and submits the CLI jobs), yields, then collects the CLI results"""
     info = {}
     with core.Scratch() as d, core.Scratch() as outdir:
-        root = os.path.realpath(d)
+        root = os.path.join(os.path.realpath(d), "cb")      # the tree has a sibling directory `outside`
+        os.makedirs(root)
         outdir = os.path.realpath(outdir)
         materialise(root, desc)
         plats = list(desc["platforms"])
